@@ -65,7 +65,7 @@ def cases(seed, tier):
     # the option axes are drawn independently (index arithmetic with the periods 8, 8, 2 used before tied the mesh kind to the order and to
     # the element type: symmetric grids, for instance, only ever met orders 3 and 4 on vertices); every (kind, order, elements) triple is
     # also visited systematically
-    kinds = ["disk", "disk", "hinge", "closed", "annulus", "disk", "grid", "polar"]
+    kinds = ["disk", "disk", "hinge", "closed", "annulus", "disk", "grid", "polar", "creased_closed"]
     triples = [(k, o, e) for k in sorted(set(kinds)) for o in (1, 2, 3, 4, 5, 6) for e in ("vertices", "faces")]
     rng.shuffle(triples)
     for i in range(n):
@@ -74,7 +74,7 @@ def cases(seed, tier):
         else:
             kind, order, elements = rng.choice(kinds), rng.choice([4, 1, 2, 3, 4, 5, 6, 4]), rng.choice(["vertices", "faces"])
         out.append({"gen": "ff", "kind": kind, "seed": rng.randrange(2 ** 31), "order": order,
-                    "elements": elements, "features": kind == "hinge" or rng.random() < 0.2,
+                    "elements": elements, "features": kind in ("hinge", "creased_closed") or rng.random() < 0.2,
                     "n_smooth": rng.choice([0, 0, 1, 3]), "cotan": rng.random() < 0.67, "max_size": 4 if tier == "quick" else 7, "keep_ears": rng.random() < 0.11})
     return out
 
@@ -90,6 +90,27 @@ def _mesh_for(desc, rng):
                 a, b, c, d = i * (n + 1) + j, (i + 1) * (n + 1) + j, (i + 1) * (n + 1) + j + 1, i * (n + 1) + j + 1
                 F += [[a, b, c], [a, c, d]]
         return V, F, "symmetric_grid"
+    if kind == "creased_closed":
+        # closed surface with sharp creases: a sheared box (its edges are feature edges, its corners feature vertices) or a capped prism
+        if rng.random() < 0.5:
+            V, Fq, _ = surfaces.cube_surface()
+            F = []
+            for q in Fq:
+                F += [[q[0], q[1], q[2]], [q[0], q[2], q[3]]] if rng.random() < 0.5 else [[q[0], q[1], q[3]], [q[1], q[2], q[3]]]
+            A = np.array([[1.0, rng.uniform(-0.3, 0.3), 0.0], [0.0, rng.uniform(0.8, 1.6), rng.uniform(-0.2, 0.2)], [0.0, 0.0, rng.uniform(0.7, 1.4)]])
+            V = np.asarray(V, float) @ A.T
+        else:
+            k = rng.randint(5, 9)
+            V = [[math.cos(2 * math.pi * i / k), math.sin(2 * math.pi * i / k) * 1.3, 0.0] for i in range(k)]
+            V += [[math.cos(2 * math.pi * i / k) + 0.2, math.sin(2 * math.pi * i / k) * 1.3, 1.5] for i in range(k)]
+            V += [[0.0, 0.0, 0.0], [0.2, 0.0, 1.5]]
+            F = []
+            for i in range(k):
+                j = (i + 1) % k
+                F += [[i, j, k + j], [i, k + j, k + i], [2 * k, j, i], [2 * k + 1, k + i, k + j]]
+        for _ in range(rng.randint(1, 2)):
+            V, F = surfaces.refine_midpoint(V, F, project=False)
+        return np.asarray(V, float), [list(f) for f in F], "creased_closed"
     if kind == "hinge":
         V, F, crease = _hinge(rng, math.radians(rng.choice([75, 90, 110])), rng.randint(3, 6))
         # interior rows so that free elements exist: refine once with the reference refinement
